@@ -1,3 +1,14 @@
--- This module serves as the root of the `SE` library.
--- Import modules here that should be built as part of the library.
-import SE.Basic
+-- Root of the SE library: importing everything makes `lake build` check every model, specification,
+-- proof and property module (the driver `sedriver` is a separate target).
+import SE.Util
+import SE.Props.C04
+import SE.Props.C09
+import SE.Props.C10
+import SE.Props.C11
+import SE.Props.C12
+import SE.Props.C13
+import SE.Props.C14
+import SE.Props.C15
+import SE.Model.Exporter
+import SE.Driver.Pipe
+import SE.Audit
